@@ -32,7 +32,7 @@ def gen_cases(tier, seed):
         cases.append({"kind": "qha", "eos": EOSS[i % 3], "E0": float(rng.uniform(-50, 5)), "B0_GPa": float(10 ** rng.uniform(np.log10(20), np.log10(300))), "Bp": float(rng.uniform(3, 6)),
                       "V0": float(10 ** rng.uniform(1, np.log10(300))), "nvol": int(rng.integers(5, 16)), "spread": float(rng.uniform(0.03, 0.10)),
                       "pressure": [None, 0.0, 5.0, -5.0, 30.0][rng.integers(5)], "el2d": bool(rng.integers(2)), "tmax_mode": ["none", "mid"][rng.integers(2)], "tgrid": ["uniform", "nonuniform"][rng.integers(2)], "vgrid": ["cover", "cover", "short", "high"][rng.integers(4)],
-                      "alpha": float(rng.uniform(1e-5, 8e-5)), "a2": float(rng.uniform(1e-7, 2e-6)), "cB": float(rng.uniform(1e-5, 2e-4)), "seed": int(rng.integers(10 ** 6)), "_cost": 3})
+                      "vorder": ["ascending", "descending", "shuffled"][int(rng.integers(3))], "alpha": float(rng.uniform(1e-5, 8e-5)), "a2": float(rng.uniform(1e-7, 2e-6)), "cB": float(rng.uniform(1e-5, 2e-4)), "seed": int(rng.integers(10 ** 6)), "_cost": 3})
     return cases
 
 
@@ -104,6 +104,22 @@ def run_case(c):
         vols = np.linspace(V0 * (1 - c["spread"]), V0T.max() - 0.08 * (V0T.max() - V0T.min()), c["nvol"])
     elif c.get("vgrid") == "high":
         vols = np.linspace(V0T.min() + 0.08 * (V0T.max() - V0T.min()), V0T.max() * (1 + c["spread"]), c["nvol"])
+    # the volume points in the order the caller happens to hold them (compressed first, a scan outwards from the equilibrium cell ...): only the
+    # temperatures are documented as ascending; every per-volume input below follows the same order
+    vorder = c.get("vorder", "ascending")
+    if vorder == "descending":
+        vols = vols[::-1].copy()
+    elif vorder == "shuffled":
+        # phonopy starts the fit from the MIDDLE element of the lists (fit_to_eos); an extreme volume there is a poor start, and whether the
+        # least-squares routine still converges is a property of that routine - here a stand-in for scipy's, so nothing to conclude from. The
+        # middle element therefore stays where it is and every other point moves (sweep after round 6, seed 1)
+        mid = len(vols) // 2
+        others = np.array([i for i in range(len(vols)) if i != mid])
+        prm_ = others[np.random.default_rng(c["seed"] + 1).permutation(len(others))]
+        idx_ = np.arange(len(vols))
+        idx_[others] = prm_
+        vols = vols[idx_]
+    obs["vorder_" + vorder] = 1
     F = np.array([[eos(v, E0T[i], B0T[i], Bp, V0T[i]) for v in vols] for i in range(len(T))])  # eV, exactly an EOS in V at every T
     P = c["pressure"]
     Fin = F.copy()
@@ -119,7 +135,7 @@ def run_case(c):
     cv = 20.0 * (1 - np.exp(-T[:, None] / 300.0)) * np.ones_like(F)
     ent = 30.0 * (T[:, None] / 500.0) * np.ones_like(F)
     t_max = None if c["tmax_mode"] == "none" else float(T[len(T) // 2])
-    feat = dict(pressure=P, el2d=c["el2d"], nvol=c["nvol"], t_max=t_max, tgrid=c.get("tgrid", "uniform"))
+    feat = dict(pressure=P, el2d=c["el2d"], nvol=c["nvol"], t_max=t_max, tgrid=c.get("tgrid", "uniform"), vorder=vorder)
     obs["tgrid_" + c.get("tgrid", "uniform")] = 1
     obs["vgrid_" + c.get("vgrid", "cover")] = 1
     try:
